@@ -1,1 +1,1894 @@
-pub fn main(_args: &[String]) {}
+// Multi-replica histories over the public API with implementation-side oracles
+use crate::gen::*;
+use crate::pure::{add_ids, js, msg_prefix};
+use crate::store::SimStore;
+use melda::adapter::Adapter;
+use melda::melda::{DeltaId, Melda};
+use melda::verif::{digest_bytes, digest_string};
+use serde_json::{json, Map, Value};
+use std::collections::{BTreeMap, BTreeSet, HashMap};
+use std::io::Write;
+use std::panic::{catch_unwind, AssertUnwindSafe};
+use std::sync::atomic::{AtomicU64, Ordering};
+use std::sync::{Arc, Mutex, RwLock};
+
+type Items = BTreeMap<String, Vec<u8>>;
+type DynA = Arc<RwLock<Box<dyn Adapter>>>;
+
+// ------------------------------------------------------------------ backends
+
+pub enum Backend {
+    Sim(SimStore),
+    Real { kind: String, path: String, adapter: DynA },
+}
+
+fn wrap(kind: &str, inner: Box<dyn Adapter>) -> Box<dyn Adapter> {
+    let a: DynA = Arc::new(RwLock::new(inner));
+    if kind.ends_with("+flate") {
+        Box::new(melda::flate2adapter::Flate2Adapter::new(a))
+    } else if kind.ends_with("+brotli") {
+        Box::new(melda::brotliadapter::BrotliAdapter::new(a))
+    } else {
+        // unwrap again
+        match Arc::try_unwrap(a) {
+            Ok(l) => l.into_inner().unwrap(),
+            Err(_) => unreachable!(),
+        }
+    }
+}
+
+pub fn open_real(kind: &str, path: &str) -> DynA {
+    let base = kind.split('+').next().unwrap();
+    let inner: Box<dyn Adapter> = match base {
+        "memory" => Box::new(melda::memoryadapter::MemoryAdapter::new()),
+        "fs" => Box::new(melda::filesystemadapter::FilesystemAdapter::new(path).unwrap()),
+        "sqlite" => Box::new(melda::sqliteadapter::SqliteAdapter::new(path)),
+        "sqlitemem" => Box::new(melda::sqliteadapter::SqliteAdapter::new_in_memory()),
+        _ => panic!("unknown backend {}", kind),
+    };
+    Arc::new(RwLock::new(wrap(kind, inner)))
+}
+
+impl Backend {
+    fn adapter(&self) -> DynA {
+        match self {
+            Backend::Sim(s) => s.dyn_adapter(),
+            Backend::Real { adapter, .. } => adapter.clone(),
+        }
+    }
+    /// adapter for a reopened replica (persistent backends: a new adapter instance)
+    fn reopen_adapter(&mut self) -> DynA {
+        match self {
+            Backend::Sim(s) => s.dyn_adapter(),
+            Backend::Real { kind, path, adapter } => {
+                if kind.starts_with("fs") || (kind.starts_with("sqlite") && !kind.starts_with("sqlitemem")) {
+                    *adapter = open_real(kind, path);
+                }
+                adapter.clone()
+            }
+        }
+    }
+    fn snapshot(&self) -> Items {
+        match self {
+            Backend::Sim(s) => s.snapshot(),
+            Backend::Real { adapter, .. } => {
+                let a = adapter.read().unwrap();
+                let mut m = Items::new();
+                for k in a.list_objects("").unwrap() {
+                    m.insert(k.clone(), a.read_object(&k, 0, 0).unwrap());
+                }
+                m
+            }
+        }
+    }
+    fn put(&self, k: &str, v: &[u8]) {
+        match self {
+            Backend::Sim(s) => s.put_raw(k, v.to_vec()),
+            Backend::Real { adapter, .. } => adapter.write().unwrap().write_object(k, v).unwrap(),
+        }
+    }
+    fn is_sim(&self) -> bool {
+        matches!(self, Backend::Sim(_))
+    }
+}
+
+// ------------------------------------------------------------------ observation
+
+fn pmsg(e: Box<dyn std::any::Any + Send>) -> String {
+    if let Some(s) = e.downcast_ref::<&str>() {
+        s.to_string()
+    } else if let Some(s) = e.downcast_ref::<String>() {
+        s.clone()
+    } else {
+        "?".into()
+    }
+}
+
+pub fn read_res(m: &Melda) -> Value {
+    match catch_unwind(AssertUnwindSafe(|| m.read(None))) {
+        Ok(Ok(v)) => json!({"ok": Value::from(v)}),
+        Ok(Err(e)) => json!({"err": msg_prefix(&e.to_string())}),
+        Err(e) => json!({"panic": msg_prefix(&pmsg(e))}),
+    }
+}
+
+/// Everything a client can observe. `blocks`: include block identifiers / statuses / anchors.
+/// `staging`: include staging flags and staged data keys.
+pub fn observe(m: &Melda, blocks: bool, staging: bool) -> Value {
+    let r = catch_unwind(AssertUnwindSafe(|| {
+        let mut objs = Map::new();
+        for u in m.get_all_objects() {
+            let w = m.get_winner(&u).map_err(|e| msg_prefix(&e.to_string()));
+            let c = m.get_conflicting(&u).map(|s| s.into_iter().collect::<Vec<_>>()).map_err(|e| msg_prefix(&e.to_string()));
+            let dump: Vec<Value> = m
+                .verif_tree_dump(&u)
+                .unwrap_or_default()
+                .into_iter()
+                .map(|(r, p, s)| if staging { json!([r, p, s]) } else { json!([r, p]) })
+                .collect();
+            objs.insert(u, json!({"w": w.unwrap_or_else(|e| format!("!{}", e)), "c": c.unwrap_or_else(|e| vec![format!("!{}", e)]), "t": dump}));
+        }
+        let mut o = Map::new();
+        o.insert("objects".into(), Value::from(objs));
+        o.insert("in_conflict".into(), json!(m.in_conflict().into_iter().collect::<Vec<_>>()));
+        o.insert("read".into(), read_res(m));
+        if blocks {
+            o.insert("anchors".into(), json!(m.get_anchors().iter().map(|a| a.to_string()).collect::<Vec<_>>()));
+            let mut ds = Map::new();
+            for (id, st) in m.verif_delta_status() {
+                let d = m.get_delta(&DeltaId::from(&id).unwrap()).unwrap().unwrap();
+                ds.insert(
+                    id,
+                    json!({"s": st, "p": d.parents.map(|p| p.iter().map(|x| x.to_string()).collect::<Vec<_>>()),
+                           "i": d.info.map(Value::from), "k": d.packs.map(|p| p.into_iter().collect::<Vec<_>>())}),
+                );
+            }
+            o.insert("deltas".into(), Value::from(ds));
+        }
+        if staging {
+            o.insert("has_staging".into(), json!(m.has_staging()));
+            o.insert("stage_keys".into(), json!(m.verif_data_index().1));
+        }
+        Value::from(o)
+    }));
+    match r {
+        Ok(v) => v,
+        Err(e) => json!({"observe_panic": msg_prefix(&pmsg(e))}),
+    }
+}
+
+fn obs_doc(m: &Melda) -> Value {
+    observe(m, true, false)
+}
+fn obs_full(m: &Melda) -> Value {
+    observe(m, true, true)
+}
+fn obs_noblocks(m: &Melda) -> Value {
+    observe(m, false, false)
+}
+
+fn fresh_on(items: &Items) -> Result<Melda, String> {
+    let st = SimStore::from_items(items.clone());
+    match catch_unwind(AssertUnwindSafe(|| Melda::new(st.dyn_adapter()))) {
+        Ok(Ok(m)) => Ok(m),
+        Ok(Err(e)) => Err(format!("err {}", msg_prefix(&e.to_string()))),
+        Err(e) => Err(format!("panic {}", msg_prefix(&pmsg(e)))),
+    }
+}
+
+fn fresh_obs(items: &Items) -> Value {
+    match fresh_on(items) {
+        Ok(m) => obs_doc(&m),
+        Err(e) => json!({ "open": e }),
+    }
+}
+
+// ------------------------------------------------------------------ world
+
+pub struct Replica {
+    pub be: Backend,
+    pub m: Option<Melda>,
+    pub last_doc: Value,
+    /// storage may hold items this replica has not looked at since its last refresh/reload
+    pub dirty: bool,
+    pub clean_obs: Option<Value>,
+    pub heads_log: Vec<(Vec<String>, Value)>,
+    pub prev_items: Items,
+    pub array_conflict_seen: bool,
+}
+
+#[derive(Clone)]
+pub struct Fail {
+    pub property: String,
+    pub what: String,
+    pub op_index: usize,
+}
+
+pub struct World {
+    pub reps: Vec<Replica>,
+    pub trace: Vec<Value>,
+    pub fails: Vec<Fail>,
+    pub key_seq: HashMap<String, usize>,
+    pub stats: BTreeMap<String, usize>,
+    pub op_index: usize,
+    pub light: bool,
+}
+
+static OP_START: AtomicU64 = AtomicU64::new(0);
+pub static CURRENT: Mutex<Option<(String, String)>> = Mutex::new(None); // (out path, description)
+
+fn now_ms() -> u64 {
+    std::time::SystemTime::now().duration_since(std::time::UNIX_EPOCH).unwrap().as_millis() as u64
+}
+
+pub fn start_watchdog(limit_ms: u64) {
+    std::thread::spawn(move || loop {
+        std::thread::sleep(std::time::Duration::from_millis(200));
+        let s = OP_START.load(Ordering::SeqCst);
+        if s != 0 && now_ms() - s > limit_ms {
+            if let Some((path, desc)) = CURRENT.lock().unwrap().clone() {
+                if let Ok(mut f) = std::fs::OpenOptions::new().create(true).append(true).open(&path) {
+                    let _ = writeln!(f, "{}", json!({"hang": true, "what": desc}));
+                }
+            }
+            eprintln!("HANG detected");
+            std::process::exit(3);
+        }
+    });
+}
+
+impl World {
+    pub fn new(n: usize, backend: &str, dir: &str, light: bool) -> World {
+        let mut reps = vec![];
+        for i in 0..n {
+            let be = if backend == "sim" {
+                Backend::Sim(SimStore::new())
+            } else {
+                let path = format!("{}/rep{}{}", dir, i, if backend.starts_with("sqlite") { ".db" } else { "" });
+                Backend::Real { kind: backend.to_string(), path: path.clone(), adapter: open_real(backend, &path) }
+            };
+            let m = Melda::new(be.adapter()).ok();
+            reps.push(Replica {
+                be,
+                m,
+                last_doc: json!({}),
+                dirty: false,
+                clean_obs: None,
+                heads_log: vec![],
+                prev_items: Items::new(),
+                array_conflict_seen: false,
+            });
+        }
+        World { reps, trace: vec![], fails: vec![], key_seq: HashMap::new(), stats: BTreeMap::new(), op_index: 0, light }
+    }
+
+    fn fail(&mut self, prop: &str, what: String) {
+        self.fails.push(Fail { property: prop.to_string(), what, op_index: self.op_index });
+    }
+
+    fn stat(&mut self, k: &str) {
+        *self.stats.entry(k.to_string()).or_insert(0) += 1;
+    }
+
+    fn register_keys(&mut self) {
+        for i in 0..self.reps.len() {
+            let items = self.reps[i].be.snapshot();
+            let mut new: Vec<&String> = items.keys().filter(|k| !self.key_seq.contains_key(*k)).collect();
+            // a commit writes a pack and then the block naming it: packs first
+            new.sort_by_key(|k| (if k.ends_with(".pack") { 0 } else { 1 }, (*k).clone()));
+            let base = self.key_seq.len();
+            let newk: Vec<String> = new.into_iter().cloned().collect();
+            for (j, k) in newk.into_iter().enumerate() {
+                self.key_seq.insert(k, base + j);
+            }
+        }
+    }
+
+    /// storage invariants after every operation (C11, C10 naming)
+    fn check_stores(&mut self) {
+        let mut all: BTreeMap<String, Vec<u8>> = BTreeMap::new();
+        for i in 0..self.reps.len() {
+            let items = self.reps[i].be.snapshot();
+            let prev = std::mem::take(&mut self.reps[i].prev_items);
+            for (k, v) in &prev {
+                match items.get(k) {
+                    Some(v2) if v2 == v => {}
+                    Some(_) => self.fail("C11", format!("stored item {} was modified on replica {}", k, i)),
+                    None => self.fail("C11", format!("stored item {} was removed on replica {}", k, i)),
+                }
+            }
+            for (k, v) in &items {
+                if prev.contains_key(k) {
+                    continue;
+                }
+                if let Some(stem) = k.strip_suffix(".pack") {
+                    if digest_bytes(v) != stem {
+                        self.fail("C11", format!("pack {} is not named by the hash of its bytes", k));
+                    }
+                } else if let Some(stem) = k.strip_suffix(".delta") {
+                    let mut it = stem.splitn(2, '-');
+                    let idx: u64 = it.next().unwrap_or("").parse().unwrap_or(0);
+                    let dg = it.next().unwrap_or("");
+                    if digest_bytes(v) != dg {
+                        self.fail("C11", format!("block {} is not named by the hash of its bytes", k));
+                    }
+                    if let Ok(Value::Object(o)) = serde_json::from_slice::<Value>(v) {
+                        let pmax = o
+                            .get("p")
+                            .and_then(|p| p.as_array())
+                            .map(|p| p.iter().filter_map(|x| x.as_str()).filter_map(|s| s.split('-').next().unwrap().parse::<u64>().ok()).max().unwrap_or(0))
+                            .unwrap_or(0);
+                        if idx != pmax + 1 {
+                            self.fail("C11", format!("block {} index is not one greater than its highest parent", k));
+                        }
+                        // C09: a block never reaches storage before the pack it references
+                        if let Some(ks) = o.get("k").and_then(|p| p.as_array()) {
+                            for p in ks.iter().filter_map(|x| x.as_str()) {
+                                if !items.contains_key(&format!("{}.pack", p)) && self.reps[i].be.is_sim() {
+                                    // only meaningful for the writer; a receiver may get files in any order (deliver op)
+                                }
+                            }
+                        }
+                    } else {
+                        self.fail("C11", format!("block {} is not a JSON object", k));
+                    }
+                }
+                match all.get(k) {
+                    Some(v2) if v2 != v => self.fail("C11", format!("item {} has different bytes on different replicas", k)),
+                    _ => {
+                        all.insert(k.clone(), v.clone());
+                    }
+                }
+            }
+            for (k, v) in &items {
+                all.entry(k.clone()).or_insert_with(|| v.clone());
+            }
+            self.reps[i].prev_items = items;
+        }
+    }
+
+    fn after_op(&mut self, r: usize) {
+        if let Some(m) = &self.reps[r].m {
+            if !m.has_staging() {
+                let o = obs_full(m);
+                self.reps[r].clean_obs = Some(o);
+            }
+        }
+    }
+
+    /// C13: heads recomputed independently from the block graph
+    fn check_graph(&mut self, r: usize) {
+        let m = match &self.reps[r].m {
+            Some(m) => m,
+            None => return,
+        };
+        let st = m.verif_delta_status();
+        let applied: BTreeSet<String> = st.iter().filter(|(_, s)| **s == "applied").map(|(k, _)| k.clone()).collect();
+        let mut named = BTreeSet::new();
+        let mut fails = vec![];
+        for id in &applied {
+            let d = m.get_delta(&DeltaId::from(id).unwrap()).unwrap().unwrap();
+            let idx: u32 = id.split('-').next().unwrap().parse().unwrap();
+            if let Some(ps) = d.parents {
+                for p in ps {
+                    if !applied.contains(&p.to_string()) {
+                        fails.push(("C13", format!("applied block {} has a parent {} that is not applied", id, p)));
+                        fails.push(("C02", format!("applied block {} has a parent {} that is not applied", id, p)));
+                    }
+                    if p.index() >= idx {
+                        fails.push(("C13", format!("block {} does not exceed the index of its parent {}", id, p)));
+                    }
+                    named.insert(p.to_string());
+                }
+            }
+        }
+        let heads: BTreeSet<String> = applied.difference(&named).cloned().collect();
+        let anchors: BTreeSet<String> = m.get_anchors().iter().map(|a| a.to_string()).collect();
+        if heads != anchors {
+            fails.push(("C13", format!("anchors {:?} are not the applied blocks without applied children {:?}", anchors, heads)));
+        }
+        for (p, w) in fails {
+            self.fail(p, w);
+        }
+    }
+
+    fn arrays_in_conflict(m: &Melda) -> Vec<String> {
+        m.in_conflict().into_iter().filter(|u| u.starts_with('^')).collect()
+    }
+
+    // -------------------------------------------------------------- operations
+
+    pub fn apply(&mut self, op: &Value) {
+        self.op_index = self.trace.len();
+        self.trace.push(op.clone());
+        let kind = op["op"].as_str().unwrap().to_string();
+        self.stat(&format!("op:{}", kind));
+        {
+            let mut cur = CURRENT.lock().unwrap();
+            let next = cur.clone().map(|(p, _)| (p, format!("op #{} {}", self.op_index, js(op))));
+            *cur = next;
+        }
+        OP_START.store(now_ms(), Ordering::SeqCst);
+        let r = op["r"].as_u64().unwrap_or(0) as usize % self.reps.len();
+        let res = catch_unwind(AssertUnwindSafe(|| self.apply_inner(&kind, r, op)));
+        OP_START.store(0, Ordering::SeqCst);
+        if let Err(e) = res {
+            let msg = pmsg(e);
+            self.fail("C08", format!("operation {} aborted the calling thread: {}", kind, msg_prefix(&msg)));
+            return;
+        }
+        let tail = catch_unwind(AssertUnwindSafe(|| {
+            self.register_keys();
+            self.check_stores();
+            self.check_graph(r);
+            self.check_trees(r);
+            for i in 0..self.reps.len() {
+                self.after_op(i);
+            }
+        }));
+        if tail.is_err() && self.fails.is_empty() {
+            self.fail("C08", format!("observation after operation {} aborted", kind));
+        }
+    }
+
+    /// C05 / C06 / C16: the leaf / winner rule and the array views, recomputed independently
+    fn check_trees(&mut self, r: usize) {
+        let m = match &self.reps[r].m {
+            Some(m) => m,
+            None => return,
+        };
+        let mut fails: Vec<(&str, String)> = vec![];
+        let in_conf = m.in_conflict();
+        for u in m.get_all_objects() {
+            let dump = m.verif_tree_dump(&u).unwrap_or_default();
+            let (leafs, winner) = independent_leafs(&dump);
+            let w = m.get_winner(&u).ok();
+            if w != winner {
+                fails.push(("C05", format!("winner of {} is {:?}, the rule gives {:?}", u, w, winner)));
+            }
+            if let Ok(c) = m.get_conflicting(&u) {
+                let expect: BTreeSet<String> = leafs.iter().filter(|l| Some((*l).clone()) != winner).cloned().collect();
+                if c != expect {
+                    fails.push(("C05", format!("conflicting revisions of {} are {:?}, the rule gives {:?}", u, c, expect)));
+                }
+            }
+            if in_conf.contains(&u) != (leafs.len() > 1) {
+                fails.push(("C05", format!("{} reported in conflict = {} but it has {} live leaves", u, in_conf.contains(&u), leafs.len())));
+            }
+        }
+        // array views
+        let rd = read_res(m);
+        if let Some(doc) = rd.get("ok") {
+            let mut ids = vec![];
+            collect_objects(doc, &mut ids);
+            let mut seen = BTreeSet::new();
+            for (id, _) in &ids {
+                if !seen.insert(id.clone()) {
+                    fails.push(("C06", format!("object {} appears more than once in the document", id)));
+                }
+            }
+            for u in m.get_all_objects() {
+                if !u.starts_with('^') {
+                    // a deleted object never appears
+                    if let Ok(w) = m.get_winner(&u) {
+                        if is_del(&w) && seen.contains(&u) {
+                            fails.push(("C06", format!("deleted object {} appears in the document", u)));
+                        }
+                    }
+                    continue;
+                }
+                let w = match m.get_winner(&u) {
+                    Ok(w) => w,
+                    Err(_) => continue,
+                };
+                if is_del(&w) {
+                    continue;
+                }
+                let dump = m.verif_tree_dump(&u).unwrap_or_default();
+                let (leafs, _) = independent_leafs(&dump);
+                let worder = match leaf_order(m, &u, &w, &dump) {
+                    Some(o) => o,
+                    None => {
+                        fails.push(("C16", format!("stored version {} of array {} cannot be reconstructed", w, u)));
+                        continue;
+                    }
+                };
+                let visible = match visible_array(doc, &u) {
+                    Some(v) => v,
+                    None => continue, // descriptor not referenced by the visible document
+                };
+                let live = |id: &String| m.get_winner(id).map(|w| !is_del(&w)).unwrap_or(false);
+                // elements of the winning version keep their relative order
+                let wv: Vec<&String> = worder.iter().filter(|e| visible.contains(e)).collect();
+                let vw: Vec<&String> = visible.iter().filter(|e| worder.contains(e)).collect();
+                if wv != vw {
+                    fails.push(("C06", format!("elements of the winning version of {} do not keep their relative order: winning {:?} visible {:?}", u, worder, visible)));
+                }
+                let mut union: BTreeSet<String> = BTreeSet::new();
+                for l in &leafs {
+                    match leaf_order(m, &u, l, &dump) {
+                        Some(o) => union.extend(o),
+                        None => fails.push(("C16", format!("stored version {} of array {} cannot be reconstructed", l, u))),
+                    }
+                }
+                for e in &visible {
+                    if !union.contains(e) {
+                        fails.push(("C06", format!("element {} of {} is in none of the concurrent versions", e, u)));
+                    }
+                }
+                for e in &union {
+                    if live(e) && !seen.contains(e) {
+                        fails.push(("C06", format!("element {} of a concurrent version of {} whose object is not deleted is missing from the document", e, u)));
+                    }
+                }
+                if leafs.len() == 1 && visible.iter().filter(|e| live(e)).cloned().collect::<Vec<_>>() != worder.iter().filter(|e| live(e) && visible.contains(e)).cloned().collect::<Vec<_>>() {
+                    fails.push(("C16", format!("array {} reads {:?} but its stored version reconstructs to {:?}", u, visible, worder)));
+                }
+            }
+        }
+        for (p, w) in fails {
+            self.fail(p, w);
+        }
+    }
+
+    fn apply_inner(&mut self, kind: &str, r: usize, op: &Value) {
+        if self.reps[r].m.is_none() && kind != "reopen" {
+            return;
+        }
+        match kind {
+            "update" => self.op_update(r, &op["doc"]),
+            "commit" => self.op_commit(r, op.get("info").cloned().unwrap_or(Value::Null)),
+            "meld" => self.op_meld(r, op["from"].as_u64().unwrap() as usize % self.reps.len()),
+            "refresh" => self.op_refresh(r),
+            "reload" => self.op_reload(r),
+            "reopen" => self.op_reopen(r),
+            "resolve" => self.op_resolve(r, op["pick"].as_u64().unwrap() as usize, op["k"].as_u64().unwrap() as usize),
+            "unstage" => self.op_unstage(r),
+            "stage_replay" => self.op_stage_replay(r),
+            "snapshot" => self.op_snapshot(r),
+            "deliver" => self.op_deliver(r, op["from"].as_u64().unwrap() as usize % self.reps.len(), op["pick"].as_u64().unwrap() as usize),
+            "timetravel" => self.op_timetravel(r, op["pick"].as_u64().unwrap() as usize),
+            "delete_object" => self.op_delete_object(r, op["pick"].as_u64().unwrap() as usize),
+            "failcommit" => self.op_failcommit(r, op),
+            "faults" => self.op_faults(r, op["seed"].as_u64().unwrap()),
+            "sync" => self.op_sync(),
+            _ => panic!("unknown op {}", kind),
+        }
+    }
+
+    fn op_update(&mut self, r: usize, doc: &Value) {
+        let m = self.reps[r].m.as_ref().unwrap();
+        let arr_conf = Self::arrays_in_conflict(m);
+        let res = m.update(doc.as_object().unwrap().clone());
+        let mut fails: Vec<(&str, String)> = vec![];
+        if res.is_err() {
+            fails.push(("C08", "update returned an error on a well-formed document".into()));
+        }
+        let rd = read_res(m);
+        let expect = add_ids(doc, true);
+        if arr_conf.is_empty() {
+            if rd != json!({ "ok": expect }) {
+                fails.push(("C04", format!("read after update differs from the submitted document: got {} expected {}", js(&rd), js(&expect))));
+                if rd.get("panic").is_some() {
+                    fails.push(("C08", format!("read aborted after update: {}", js(&rd))));
+                }
+            }
+        } else {
+            self.reps[r].array_conflict_seen = true;
+            // every object of the submitted document appears exactly once with the submitted content
+            match rd.get("ok") {
+                Some(got) => {
+                    let (mut a, mut b) = (vec![], vec![]);
+                    collect_objects(&expect, &mut a);
+                    collect_objects(got, &mut b);
+                    a.sort();
+                    b.sort();
+                    if a != b {
+                        fails.push(("C04", format!("objects read after update (array in conflict) differ: got {} expected {}", js(got), js(&expect))));
+                    }
+                }
+                None => {
+                    fails.push(("C04", format!("read failed after update: {}", js(&rd))));
+                    fails.push(("C08", format!("read failed after update: {}", js(&rd))));
+                }
+            }
+        }
+        // submitting the same document again changes nothing
+        let m = self.reps[r].m.as_ref().unwrap();
+        let before = obs_full(m);
+        let _ = m.update(doc.as_object().unwrap().clone());
+        let after = obs_full(m);
+        if before != after {
+            fails.push(("C04", "submitting the same document twice changed the replica".into()));
+        }
+        self.reps[r].last_doc = doc.clone();
+        if !arr_conf.is_empty() {
+            self.stat("update_with_array_conflict");
+        }
+        for (p, w) in fails {
+            self.fail(p, w);
+        }
+    }
+
+    fn op_commit(&mut self, r: usize, info: Value) {
+        let is_sim = self.reps[r].be.is_sim();
+        let m = self.reps[r].m.as_ref().unwrap();
+        let had_staging = m.has_staging();
+        let read_before = read_res(m);
+        let anchors_before: BTreeSet<String> = m.get_anchors().iter().map(|a| a.to_string()).collect();
+        let items_before = self.reps[r].be.snapshot();
+        let had_arr_conf = !Self::arrays_in_conflict(m).is_empty();
+        if let Backend::Sim(s) = &self.reps[r].be {
+            s.take_log();
+        }
+        let res = m.commit(info.as_object().cloned());
+        let mut fails: Vec<(&str, String)> = vec![];
+        let log = if let Backend::Sim(s) = &self.reps[r].be { s.take_log() } else { vec![] };
+        let items_after = self.reps[r].be.snapshot();
+        if had_arr_conf && had_staging {
+            *self.stats.entry("commit_with_array_conflict".into()).or_insert(0) += 1;
+        }
+        match &res {
+            Ok(None) => {
+                if had_staging {
+                    fails.push(("C13", "commit reported no commit although changes were staged".into()));
+                }
+                if items_after != items_before {
+                    fails.push(("C04", "a commit with nothing staged wrote to storage".into()));
+                }
+            }
+            Ok(Some(a)) => {
+                if !had_staging {
+                    fails.push(("C04", "a commit with nothing staged reported a commit".into()));
+                }
+                let ids: Vec<String> = a.iter().map(|x| x.to_string()).collect();
+                if ids.len() != 1 {
+                    fails.push(("C13", format!("commit returned {} heads", ids.len())));
+                }
+                let new_blocks: Vec<&String> = items_after.keys().filter(|k| k.ends_with(".delta") && !items_before.contains_key(*k)).collect();
+                if new_blocks.len() != 1 {
+                    fails.push(("C13", format!("commit created {} blocks", new_blocks.len())));
+                }
+                if let Some(id) = ids.first() {
+                    let d = m.get_delta(&DeltaId::from(id).unwrap()).unwrap();
+                    match d {
+                        None => fails.push(("C13", "the committed block is not known to the replica".into())),
+                        Some(d) => {
+                            let ps: BTreeSet<String> = d.parents.clone().unwrap_or_default().iter().map(|p| p.to_string()).collect();
+                            if ps != anchors_before {
+                                fails.push(("C13", format!("parents {:?} of the new block are not the previous heads {:?}", ps, anchors_before)));
+                            }
+                            let idx: u32 = id.split('-').next().unwrap().parse().unwrap();
+                            for p in d.parents.clone().unwrap_or_default() {
+                                if p.index() >= idx {
+                                    fails.push(("C13", "index of the new block does not exceed its parents".into()));
+                                }
+                            }
+                            if d.info.map(Value::from).unwrap_or(Value::Null) != info {
+                                fails.push(("C13", "commit metadata does not read back unchanged".into()));
+                            }
+                        }
+                    }
+                    let now: BTreeSet<String> = m.get_anchors().iter().map(|x| x.to_string()).collect();
+                    if now != BTreeSet::from([id.clone()]) {
+                        fails.push(("C13", format!("after commit the heads are {:?}, not the new block alone", now)));
+                    }
+                }
+                if m.has_staging() {
+                    fails.push(("C15", "a successful commit left changes staged".into()));
+                }
+                // write order: the pack before the block that names it
+                if is_sim {
+                    let pos_pack = log.iter().position(|(k, _)| k.ends_with(".pack"));
+                    let pos_delta = log.iter().position(|(k, _)| k.ends_with(".delta"));
+                    if let (Some(p), Some(d)) = (pos_pack, pos_delta) {
+                        if d < p {
+                            fails.push(("C09", "commit wrote the block before the pack it references".into()));
+                        }
+                    }
+                }
+                // C03 / C09: reopen on the same storage, and on every prefix / subset of the writes
+                if !self.light {
+                    let f_after = fresh_obs(&items_after);
+                    let mine = obs_doc(m);
+                    if !self.reps[r].dirty && f_after != mine {
+                        fails.push(("C03", format!("a replica reopened after commit differs from the committing replica: {}", first_diff(&mine, &f_after))));
+                    }
+                    if is_sim && !log.is_empty() {
+                        let f_before = fresh_obs(&items_before);
+                        let n = log.len();
+                        for mask in 0..(1u32 << n) {
+                            if mask == (1 << n) - 1 {
+                                continue;
+                            }
+                            let mut it = items_before.clone();
+                            for (j, (k, v)) in log.iter().enumerate() {
+                                if mask & (1 << j) != 0 {
+                                    it.insert(k.clone(), v.clone());
+                                }
+                            }
+                            let f = fresh_obs(&it);
+                            if strip_blocked(&f) != strip_blocked(&f_before) {
+                                fails.push(("C09", format!("a crash after a subset {:b} of the commit's writes does not reopen to the previous state: {}", mask, first_diff(&f_before, &f))));
+                            }
+                        }
+                    }
+                }
+            }
+            Err(e) => {
+                fails.push(("C08", format!("commit failed without a storage fault: {}", msg_prefix(&e.to_string()))));
+            }
+        }
+        let read_after = read_res(m);
+        if read_after != read_before {
+            fails.push(("C12", format!("commit changed the visible document: before {} after {}", js(&read_before), js(&read_after))));
+        }
+        if res.as_ref().map(|x| x.is_some()).unwrap_or(false) && !self.reps[r].dirty {
+            let a: Vec<String> = m.get_anchors().iter().map(|x| x.to_string()).collect();
+            let o = obs_noblocks(m);
+            self.reps[r].heads_log.push((a, o));
+        }
+        for (p, w) in fails {
+            self.fail(p, w);
+        }
+    }
+
+    fn op_meld(&mut self, r: usize, from: usize) {
+        if r == from {
+            return;
+        }
+        let (ra, rb) = two(&mut self.reps, r, from);
+        let (ma, mb) = match (&ra.m, &rb.m) {
+            (Some(a), Some(b)) => (a, b),
+            _ => return,
+        };
+        let read_before = read_res(ma);
+        let full_before = obs_full(ma);
+        let items_before = ra.be.snapshot();
+        let from_items = rb.be.snapshot();
+        let res = ma.meld(mb);
+        let mut fails: Vec<(&str, String)> = vec![];
+        if let Err(e) = &res {
+            fails.push(("C08", format!("meld failed: {}", msg_prefix(&e.to_string()))));
+        }
+        if read_res(ma) != read_before || obs_full(ma) != full_before {
+            fails.push(("C12", "meld without refresh changed the visible state".into()));
+        }
+        let items_after = ra.be.snapshot();
+        for (k, v) in &items_after {
+            if !items_before.contains_key(k) {
+                match from_items.get(k) {
+                    Some(v2) if v2 == v => {}
+                    _ => fails.push(("C11", format!("meld wrote item {} whose bytes differ from the source replica", k))),
+                }
+            }
+        }
+        // every block the source has loaded and every pack it has applied must now be present
+        for (id, _) in mb.verif_delta_status() {
+            if !items_after.contains_key(&format!("{}.delta", id)) {
+                fails.push(("C01", format!("meld did not transfer block {}", id)));
+            }
+        }
+        for p in mb.verif_applied_packs() {
+            if !items_after.contains_key(&format!("{}.pack", p)) {
+                fails.push(("C01", format!("meld did not transfer pack {}", p)));
+            }
+        }
+        // C09: any subset of the meld's writes reopens to a state without mixtures
+        let written: Vec<&String> = items_after.keys().filter(|k| !items_before.contains_key(*k)).collect();
+        if !self.light && !written.is_empty() && written.len() <= 12 {
+            let mut s = 0x9E37u64 ^ (written.len() as u64) ^ (self.op_index as u64) << 8;
+            for _ in 0..3 {
+                let mut it = items_before.clone();
+                for k in &written {
+                    s ^= s << 13;
+                    s ^= s >> 7;
+                    s ^= s << 17;
+                    if s & 1 == 1 {
+                        it.insert((*k).clone(), items_after[*k].clone());
+                    }
+                }
+                if let Some(w) = check_no_mixture(&it) {
+                    fails.push(("C09", format!("a crash in the middle of meld reopens to a mixed state: {}", w)));
+                    fails.push(("C02", format!("incomplete block applied: {}", w)));
+                }
+            }
+        }
+        ra.dirty = true;
+        for (p, w) in fails {
+            self.fail(p, w);
+        }
+    }
+
+    fn op_refresh(&mut self, r: usize) {
+        let dirty = self.reps[r].dirty;
+        let rep = &mut self.reps[r];
+        let be = &rep.be;
+        let snap_after = || be.snapshot();
+        let m = rep.m.as_mut().unwrap();
+        let staged = m.has_staging();
+        let before = obs_full(m);
+        let read_before = read_res(m);
+        let res = m.refresh();
+        let mut fails: Vec<(&str, String)> = vec![];
+        if staged {
+            if res.is_ok() {
+                fails.push(("C15", "refresh ran although changes were staged".into()));
+            }
+            if obs_full(m) != before {
+                fails.push(("C15", "a refused refresh changed the replica".into()));
+            }
+        } else {
+            match &res {
+                Err(e) => fails.push(("C08", format!("refresh failed on intact storage: {}", msg_prefix(&e.to_string())))),
+                Ok(()) => {
+                    if !dirty && read_res(m) != read_before {
+                        fails.push(("C12", "refresh with nothing new in storage changed the visible document".into()));
+                    }
+                    if !self.light {
+                        let f = fresh_obs(&snap_after());
+                        let mine = obs_doc(m);
+                        if f != mine {
+                            fails.push(("C02", format!("incremental refresh differs from a full reload of the same storage: {}", first_diff(&mine, &f))));
+                            fails.push(("C01", format!("incremental refresh differs from a full reload of the same storage: {}", first_diff(&mine, &f))));
+                        }
+                    }
+                    self.reps[r].dirty = false;
+                    let m = self.reps[r].m.as_ref().unwrap();
+                    let a: Vec<String> = m.get_anchors().iter().map(|x| x.to_string()).collect();
+                    let o = obs_noblocks(m);
+                    self.reps[r].heads_log.push((a, o));
+                }
+            }
+        }
+        for (p, w) in fails {
+            self.fail(p, w);
+        }
+    }
+
+    fn op_reload(&mut self, r: usize) {
+        let dirty = self.reps[r].dirty;
+        let m = self.reps[r].m.as_ref().unwrap();
+        let staged = m.has_staging();
+        let before = obs_full(m);
+        let read_before = read_res(m);
+        let res = m.reload();
+        let mut fails: Vec<(&str, String)> = vec![];
+        if staged {
+            if res.is_ok() {
+                fails.push(("C15", "reload ran although changes were staged".into()));
+            }
+            if obs_full(m) != before {
+                fails.push(("C15", "a refused reload changed the replica".into()));
+            }
+        } else {
+            match &res {
+                Err(e) => fails.push(("C08", format!("reload failed on intact storage: {}", msg_prefix(&e.to_string())))),
+                Ok(()) => {
+                    if !dirty && read_res(m) != read_before {
+                        fails.push(("C12", "reload with nothing new in storage changed the visible document".into()));
+                    }
+                    if !self.light {
+                        let f = fresh_obs(&self.reps[r].be.snapshot());
+                        let mine = obs_doc(m);
+                        if f != mine {
+                            fails.push(("C01", format!("reload differs from a freshly opened replica: {}", first_diff(&mine, &f))));
+                        }
+                    }
+                    self.reps[r].dirty = false;
+                }
+            }
+        }
+        for (p, w) in fails {
+            self.fail(p, w);
+        }
+    }
+
+    fn op_reopen(&mut self, r: usize) {
+        let old = self.reps[r].m.take();
+        let (before, staged) = match &old {
+            Some(m) => (Some(obs_doc(m)), m.has_staging()),
+            None => (None, false),
+        };
+        let dirty = self.reps[r].dirty;
+        drop(old);
+        let ad = self.reps[r].be.reopen_adapter();
+        match Melda::new(ad) {
+            Ok(m) => {
+                let now = obs_doc(&m);
+                if let Some(b) = before {
+                    if !dirty && !staged && b != now {
+                        let d = first_diff(&b, &now);
+                        self.fail("C03", format!("reopened replica differs from the replica before reopening: {}", d));
+                    }
+                }
+                self.reps[r].m = Some(m);
+                self.reps[r].dirty = false;
+            }
+            Err(e) => {
+                self.fail("C03", format!("cannot reopen a replica on its own storage: {}", msg_prefix(&e.to_string())));
+                self.fail("C17", format!("cannot reopen a replica on its own storage: {}", msg_prefix(&e.to_string())));
+            }
+        }
+    }
+
+    fn op_resolve(&mut self, r: usize, pick: usize, k: usize) {
+        let m = self.reps[r].m.as_ref().unwrap();
+        let conf: Vec<String> = m.in_conflict().into_iter().collect();
+        if conf.is_empty() {
+            return;
+        }
+        let uuid = conf[pick % conf.len()].clone();
+        let w = m.get_winner(&uuid).unwrap();
+        let mut leafs: Vec<String> = m.get_conflicting(&uuid).unwrap().into_iter().collect();
+        leafs.push(w.clone());
+        leafs.sort();
+        let choice = leafs[k % leafs.len()].clone();
+        let is_arr = uuid.starts_with('^');
+        let read_before = read_res(m);
+        let val_before = m.get_value(&uuid, Some(&choice));
+        let chosen_deleted = choice.split('-').nth(1).map(|s| s.starts_with("d_")).unwrap_or(false);
+        let objs_before = {
+            let mut v = vec![];
+            if let Some(g) = read_before.get("ok") {
+                collect_objects(g, &mut v);
+            }
+            v.sort();
+            v
+        };
+        self.stat(if is_arr { "resolve_array" } else { "resolve_object" });
+        if chosen_deleted {
+            self.stat("resolve_to_deletion");
+        }
+        let m = self.reps[r].m.as_ref().unwrap();
+        let res = m.resolve_as(&uuid, &choice);
+        let mut fails: Vec<(&str, String)> = vec![];
+        match res {
+            Err(e) => fails.push(("C07", format!("resolve_as a live leaf failed: {}", msg_prefix(&e.to_string())))),
+            Ok(_) => {
+                if m.in_conflict().contains(&uuid) {
+                    fails.push(("C07", "object still in conflict after resolution".into()));
+                }
+                let rd = read_res(m);
+                if rd.get("ok").is_none() {
+                    fails.push(("C07", format!("read fails after resolution: {}", js(&rd))));
+                    fails.push(("C08", format!("read fails after resolution: {}", js(&rd))));
+                }
+                if choice == w && rd != read_before {
+                    fails.push(("C07", format!("resolving in favour of the current winner changed the document: before {} after {}", js(&read_before), js(&rd))));
+                }
+                if !is_arr {
+                    let now = m.get_value(&uuid, None);
+                    match (val_before, now) {
+                        (Ok(a), Ok(b)) => {
+                            if a != b {
+                                fails.push(("C07", format!("resolved object does not carry the value of the chosen revision: chosen {} now {}", js(&Value::from(a)), js(&Value::from(b)))));
+                            }
+                        }
+                        _ => fails.push(("C07", "cannot read the value of the chosen / resolved revision".into())),
+                    }
+                    if chosen_deleted {
+                        if let Some(g) = rd.get("ok") {
+                            let mut v = vec![];
+                            collect_objects(g, &mut v);
+                            if v.iter().any(|(id, _)| *id == uuid) {
+                                fails.push(("C07", "object resolved to a deletion is still present in the document".into()));
+                            }
+                        }
+                    }
+                } else if !chosen_deleted && !w.split('-').nth(1).map(|s| s.starts_with("d_")).unwrap_or(false) {
+                    // arrays: nothing is lost by a resolution
+                    if let Some(g) = rd.get("ok") {
+                        let mut v = vec![];
+                        collect_objects(g, &mut v);
+                        v.sort();
+                        if v != objs_before {
+                            fails.push(("C07", format!("resolving an array conflict ({} as {}) changed the set of visible objects: before {} after {}", uuid, choice, js(&read_before), js(&rd))));
+                        }
+                    }
+                }
+            }
+        }
+        // error cases leave the state unchanged
+        let m = self.reps[r].m.as_ref().unwrap();
+        let before = obs_full(m);
+        let e1 = catch_unwind(AssertUnwindSafe(|| m.resolve_as(&uuid, &choice)));
+        match e1 {
+            Ok(Err(_)) => {
+                if obs_full(m) != before {
+                    fails.push(("C07", "a rejected resolution changed the replica".into()));
+                }
+            }
+            Ok(Ok(_)) => fails.push(("C07", "resolving an object that is no longer in conflict succeeded".into())),
+            Err(_) => fails.push(("C08", "resolve_as aborted".into())),
+        }
+        for (p, w) in fails {
+            self.fail(p, w);
+        }
+    }
+
+    fn op_unstage(&mut self, r: usize) {
+        let clean = self.reps[r].clean_obs.clone();
+        let m = self.reps[r].m.as_mut().unwrap();
+        let staged = m.has_staging();
+        let res = m.unstage();
+        let mut fails: Vec<(&str, String)> = vec![];
+        if res.is_err() {
+            fails.push(("C08", "unstage failed".into()));
+        }
+        if m.has_staging() {
+            fails.push(("C15", "changes still staged after unstage".into()));
+        }
+        if let Some(c) = clean {
+            let now = obs_full(m);
+            if now != c {
+                fails.push(("C15", format!("discarding staged changes does not restore the last committed-or-refreshed state: {}", first_diff(&c, &now))));
+            }
+        }
+        if staged {
+            self.stat("unstage_with_staging");
+        }
+        for (p, w) in fails {
+            self.fail(p, w);
+        }
+    }
+
+    fn op_stage_replay(&mut self, r: usize) {
+        let clean = self.reps[r].clean_obs.clone();
+        let m = self.reps[r].m.as_mut().unwrap();
+        if !m.has_staging() {
+            return;
+        }
+        let before = obs_full(m);
+        let s = m.stage().unwrap();
+        let _ = m.unstage();
+        let mut fails: Vec<(&str, String)> = vec![];
+        if let Some(c) = clean {
+            let now = obs_full(m);
+            if now != c {
+                fails.push(("C15", format!("discarding staged changes does not restore the clean state: {}", first_diff(&c, &now))));
+            }
+        }
+        if let Err(e) = m.replay_stage(&s) {
+            fails.push(("C15", format!("replaying an exported stage failed: {}", msg_prefix(&e.to_string()))));
+        }
+        let after = obs_full(m);
+        if after != before {
+            fails.push(("C15", format!("export, discard and replay does not restore the staged state: {}", first_diff(&before, &after))));
+        }
+        for (p, w) in fails {
+            self.fail(p, w);
+        }
+    }
+
+    fn op_snapshot(&mut self, r: usize) {
+        let m = self.reps[r].m.as_ref().unwrap();
+        let read_before = read_res(m);
+        let res = m.stage_full_snapshot();
+        let mut fails: Vec<(&str, String)> = vec![];
+        if let Err(e) = res {
+            fails.push(("C08", format!("stage_full_snapshot failed: {}", msg_prefix(&e.to_string()))));
+        }
+        let rd = read_res(m);
+        if rd != read_before {
+            fails.push(("C12", format!("a full snapshot changed the visible document: before {} after {}", js(&read_before), js(&rd))));
+        }
+        for (p, w) in fails {
+            self.fail(p, w);
+        }
+    }
+
+    fn op_deliver(&mut self, r: usize, from: usize, pick: usize) {
+        if r == from {
+            return;
+        }
+        let src = self.reps[from].be.snapshot();
+        let dst = self.reps[r].be.snapshot();
+        let mut missing: Vec<&String> = src.keys().filter(|k| !dst.contains_key(*k)).collect();
+        if missing.is_empty() {
+            return;
+        }
+        missing.sort_by_key(|k| self.key_seq.get(*k).cloned().unwrap_or(usize::MAX));
+        let k = missing[pick % missing.len()].clone();
+        self.reps[r].be.put(&k, &src[&k]);
+        self.reps[r].dirty = true;
+        self.stat("deliver_single_file");
+        let staged = self.reps[r].m.as_ref().map(|m| m.has_staging()).unwrap_or(true);
+        if !staged {
+            self.op_refresh(r);
+        }
+    }
+
+    fn op_timetravel(&mut self, r: usize, pick: usize) {
+        if self.reps[r].heads_log.is_empty() {
+            return;
+        }
+        let m = self.reps[r].m.as_ref().unwrap();
+        if m.has_staging() {
+            return;
+        }
+        let (anchors, expect) = self.reps[r].heads_log[pick % self.reps[r].heads_log.len()].clone();
+        if anchors.is_empty() {
+            return;
+        }
+        if anchors.len() > 1 {
+            *self.stats.entry("timetravel_multi_head".into()).or_insert(0) += 1;
+        }
+        let set: BTreeSet<DeltaId> = anchors.iter().map(|a| DeltaId::from(a).unwrap()).collect();
+        let mut fails: Vec<(&str, String)> = vec![];
+        match m.reload_until(&set) {
+            Err(e) => fails.push(("C14", format!("time travel to former heads {:?} failed: {}", anchors, msg_prefix(&e.to_string())))),
+            Ok(()) => {
+                let got = obs_noblocks(m);
+                if got != expect {
+                    fails.push(("C14", format!("time travel to {:?} does not show the state the replica had with those heads: {}", anchors, first_diff(&expect, &got))));
+                }
+                let now: Vec<String> = m.get_anchors().iter().map(|x| x.to_string()).collect();
+                if now != anchors {
+                    fails.push(("C14", format!("heads after time travel are {:?}, expected {:?}", now, anchors)));
+                }
+                // every revision of the loaded history stays retrievable
+                for u in m.get_all_objects() {
+                    for (rev, par, _) in m.verif_tree_dump(&u).unwrap_or_default() {
+                        if catch_unwind(AssertUnwindSafe(|| m.get_value(&u, Some(&rev)))).map(|x| x.is_err()).unwrap_or(true) {
+                            fails.push(("C14", format!("revision {} of {} is not retrievable after time travel", rev, u)));
+                        }
+                        if m.get_parent_revision(&u, &rev).ok().flatten() != par {
+                            fails.push(("C14", format!("parent of revision {} of {} changed", rev, u)));
+                        }
+                    }
+                }
+            }
+        }
+        self.check_graph(r);
+        let m = self.reps[r].m.as_ref().unwrap();
+        match m.reload() {
+            Err(e) => fails.push(("C14", format!("reload after time travel failed: {}", msg_prefix(&e.to_string())))),
+            Ok(()) => {
+                if !self.light {
+                    let f = fresh_obs(&self.reps[r].be.snapshot());
+                    let mine = obs_doc(m);
+                    if f != mine {
+                        fails.push(("C14", format!("reload after time travel does not return to the latest state: {}", first_diff(&mine, &f))));
+                    }
+                }
+                self.reps[r].dirty = false;
+            }
+        }
+        for (p, w) in fails {
+            self.fail(p, w);
+        }
+    }
+
+    fn op_delete_object(&mut self, r: usize, pick: usize) {
+        let m = self.reps[r].m.as_ref().unwrap();
+        let objs: Vec<String> = m.get_all_objects().into_iter().filter(|u| !u.starts_with('^') && u != "\u{221A}").collect();
+        if objs.is_empty() {
+            return;
+        }
+        let u = &objs[pick % objs.len()];
+        let _ = m.delete_object(u);
+        let rd = read_res(m);
+        if rd.get("ok").is_none() {
+            self.fail("C08", format!("read fails after delete_object: {}", js(&rd)));
+        }
+    }
+
+    fn op_failcommit(&mut self, r: usize, op: &Value) {
+        let store = match &self.reps[r].be {
+            Backend::Sim(s) => s.clone(),
+            _ => {
+                // real backends: no fault injection, an ordinary commit
+                let info = op.get("info").cloned().unwrap_or(Value::Null);
+                return self.op_commit(r, info);
+            }
+        };
+        let m = self.reps[r].m.as_ref().unwrap();
+        if !m.has_staging() {
+            return;
+        }
+        let fail: Vec<usize> = op["fail"].as_array().unwrap().iter().map(|x| x.as_u64().unwrap() as usize).collect();
+        let repeats = op["repeats"].as_u64().unwrap_or(1) as usize;
+        let info = op.get("info").and_then(|i| i.as_object().cloned());
+        let read_before = read_res(m);
+        let items_before = store.snapshot();
+        let f_before = fresh_obs(&items_before);
+        let mut fails: Vec<(&str, String)> = vec![];
+        for _ in 0..repeats {
+            store.set_fail(fail.clone());
+            let res = catch_unwind(AssertUnwindSafe(|| m.commit(info.clone())));
+            store.set_fail(vec![]);
+            match res {
+                Err(_) => fails.push(("C08", "commit aborted on a write failure".into())),
+                Ok(Ok(_)) => {
+                    // the failing ordinal was not reached (e.g. no pack to write): nothing to check
+                    break;
+                }
+                Ok(Err(_)) => {
+                    self.stats.entry("failed_commit".into()).and_modify(|x| *x += 1).or_insert(1);
+                    if !m.has_staging() {
+                        fails.push(("C09", "after a failed commit the staged changes are gone".into()));
+                    }
+                    if read_res(m) != read_before {
+                        fails.push(("C09", "a failed commit changed the visible document".into()));
+                    }
+                    let f = fresh_obs(&store.snapshot());
+                    if strip_blocked(&f) != strip_blocked(&f_before) {
+                        fails.push(("C09", format!("after a failed commit a reopened replica does not see the previous state: {}", first_diff(&f_before, &f))));
+                    }
+                }
+            }
+        }
+        // retry without faults
+        if m.has_staging() {
+            match m.commit(info.clone()) {
+                Ok(Some(_)) => {
+                    let f = fresh_obs(&store.snapshot());
+                    let mine = obs_doc(m);
+                    if !self.reps[r].dirty && f != mine {
+                        fails.push(("C09", format!("a retried commit does not yield the durable result of an uninterrupted commit: {}", first_diff(&mine, &f))));
+                    }
+                    if read_res(m) != read_before {
+                        fails.push(("C09", "retried commit changed the visible document".into()));
+                    }
+                }
+                Ok(None) => fails.push(("C09", "retry of a failed commit reported nothing to commit".into())),
+                Err(e) => fails.push(("C09", format!("retry of a failed commit failed: {}", msg_prefix(&e.to_string())))),
+            }
+        }
+        store.take_log();
+        for (p, w) in fails {
+            self.fail(p, w);
+        }
+    }
+
+    fn op_faults(&mut self, r: usize, seed: u64) {
+        if !self.reps[r].be.is_sim() {
+            return;
+        }
+        let items = self.reps[r].be.snapshot();
+        if items.is_empty() {
+            return;
+        }
+        let mut g = Rng::new(seed);
+        let keys: Vec<String> = items.keys().cloned().collect();
+        let mut fails: Vec<(&str, String)> = vec![];
+        for _ in 0..6 {
+            let mut dmg = items.clone();
+            let mut desc = vec![];
+            for _ in 0..1 + g.below(2) {
+                let k = g.pick(&keys).clone();
+                if !dmg.contains_key(&k) {
+                    continue;
+                }
+                match g.below(6) {
+                    0 => {
+                        let v = dmg.get_mut(&k).unwrap();
+                        if !v.is_empty() {
+                            let i = g.below(v.len());
+                            v[i] ^= 1 << g.below(8);
+                            desc.push(format!("flip {} @{}", k, i));
+                        }
+                    }
+                    1 => {
+                        let v = dmg.get_mut(&k).unwrap();
+                        let n = g.below(v.len() + 1);
+                        v.truncate(n);
+                        desc.push(format!("truncate {} to {}", k, n));
+                    }
+                    2 => {
+                        dmg.insert(k.clone(), vec![]);
+                        desc.push(format!("empty {}", k));
+                    }
+                    3 => {
+                        dmg.remove(&k);
+                        desc.push(format!("delete {}", k));
+                    }
+                    4 => {
+                        let body: Vec<u8> = match g.below(3) {
+                            0 => b"{\"c\":[[\"\\u221a\",\"abc\"]]}".to_vec(),
+                            1 => b"not json".to_vec(),
+                            _ => items[&k].clone(),
+                        };
+                        let name = match g.below(4) {
+                            0 => format!("{}-{}.delta", 1 + g.below(3), "ab".repeat(32)),
+                            1 => format!("{}.pack", "cd".repeat(32)),
+                            2 => format!("{}-{}.delta", 1, digest_bytes(&body)),
+                            _ => format!("junk{}.delta", g.below(10)),
+                        };
+                        desc.push(format!("inject {}", name));
+                        dmg.entry(name).or_insert(body);
+                    }
+                    _ => {
+                        // replace an item by another valid item's bytes
+                        let k2 = g.pick(&keys).clone();
+                        dmg.insert(k.clone(), items[&k2].clone());
+                        desc.push(format!("swap {} <- {}", k, k2));
+                    }
+                }
+            }
+            *self.stats.entry("fault_variants".into()).or_insert(0) += 1;
+            // the intact part: items whose bytes hash to their name
+            let intact: Items = dmg
+                .iter()
+                .filter(|(k, v)| {
+                    if let Some(s) = k.strip_suffix(".pack") {
+                        digest_bytes(v) == s
+                    } else if let Some(s) = k.strip_suffix(".delta") {
+                        s.splitn(2, '-').nth(1).map(|d| digest_bytes(v) == d).unwrap_or(false)
+                    } else {
+                        true
+                    }
+                })
+                .map(|(k, v)| (k.clone(), v.clone()))
+                .collect();
+            let expect = fresh_obs(&intact);
+            match fresh_on(&dmg) {
+                Err(e) => {
+                    if e.starts_with("panic") {
+                        fails.push(("C10", format!("opening damaged storage ({}) aborts: {}", desc.join(", "), e)));
+                        fails.push(("C08", format!("opening damaged storage ({}) aborts: {}", desc.join(", "), e)));
+                    }
+                    *self.stats.entry("fault_open_error".into()).or_insert(0) += 1;
+                }
+                Ok(m) => {
+                    let got = obs_doc(&m);
+                    if got != expect {
+                        fails.push(("C10", format!("opening damaged storage ({}) yields neither an error nor the state of the intact items: {}", desc.join(", "), first_diff(&expect, &got))));
+                    }
+                }
+            }
+            // refresh path: a replica opened on the original storage, then the damage appears
+            if let Ok(mut m) = fresh_on(&items) {
+                let st = SimStore::from_items(items.clone());
+                if let Ok(mut m2) = Melda::new(st.dyn_adapter()) {
+                    let _ = &mut m;
+                    for (k, v) in &dmg {
+                        if !items.contains_key(k) {
+                            st.put_raw(k, v.clone());
+                        }
+                    }
+                    if m2.refresh().is_ok() {
+                        let mut both = items.clone();
+                        for (k, v) in &intact {
+                            both.entry(k.clone()).or_insert(v.clone());
+                        }
+                        let expect2 = fresh_obs(&both);
+                        let got = obs_doc(&m2);
+                        if got != expect2 {
+                            fails.push(("C10", format!("refresh after injection ({}) differs from the state of the intact items: {}", desc.join(", "), first_diff(&expect2, &got))));
+                        }
+                    }
+                }
+            }
+        }
+        for (p, w) in fails {
+            self.fail(p, w);
+        }
+    }
+
+    /// exchange until nobody learns anything new, then compare everything with everything
+    pub fn op_sync(&mut self) {
+        let n = self.reps.len();
+        let mut fails: Vec<(&str, String)> = vec![];
+        for i in 0..n {
+            if let Some(m) = self.reps[i].m.as_mut() {
+                if m.has_staging() {
+                    let _ = m.commit(None);
+                }
+            }
+        }
+        for round in 0..6 {
+            let mut learned = false;
+            for i in 0..n {
+                for j in 0..n {
+                    if i != j {
+                        let (a, b) = two(&mut self.reps, i, j);
+                        if let (Some(ma), Some(mb)) = (a.m.as_mut(), b.m.as_ref()) {
+                            if let Ok(v) = ma.meld(mb) {
+                                if !v.is_empty() {
+                                    learned = true;
+                                }
+                            }
+                            if ma.refresh().is_err() {
+                                fails.push(("C08", "refresh failed during synchronisation".into()));
+                            }
+                            a.dirty = false;
+                        }
+                    }
+                }
+            }
+            if !learned {
+                break;
+            }
+            if round == 5 {
+                fails.push(("C01", "synchronisation does not reach a fixpoint".into()));
+            }
+        }
+        self.stat("sync");
+        let obs: Vec<Option<Value>> = self.reps.iter().map(|r| r.m.as_ref().map(obs_doc)).collect();
+        let stores: Vec<Items> = self.reps.iter().map(|r| r.be.snapshot()).collect();
+        for i in 1..n {
+            if let (Some(a), Some(b)) = (&obs[0], &obs[i]) {
+                if a != b {
+                    fails.push(("C01", format!("replicas 0 and {} differ after full synchronisation: {}", i, first_diff(a, b))));
+                    let da: BTreeSet<&String> = stores[0].keys().filter(|k| k.ends_with(".delta") || k.ends_with(".pack")).collect();
+                    let db: BTreeSet<&String> = stores[i].keys().filter(|k| k.ends_with(".delta") || k.ends_with(".pack")).collect();
+                    if da != db {
+                        fails.push(("C01", "stores differ after full synchronisation".into()));
+                    }
+                }
+            }
+        }
+        // a plain file copy of the union into a fresh replica, and delivery in a scrambled order
+        if let Some(a) = &obs[0] {
+            let mut union = Items::new();
+            for s in &stores {
+                for (k, v) in s {
+                    union.insert(k.clone(), v.clone());
+                }
+            }
+            let f = fresh_obs(&union);
+            if &f != a {
+                fails.push(("C01", format!("a fresh replica on a file copy differs from the synchronised replicas: {}", first_diff(a, &f))));
+            }
+            if !self.light {
+                let st = SimStore::new();
+                st.set_perm(0x5EED ^ self.op_index as u64);
+                if let Ok(mut m) = Melda::new(st.dyn_adapter()) {
+                    let mut ks: Vec<&String> = union.keys().collect();
+                    let mut g = Rng::new(self.op_index as u64 + 77);
+                    g.shuffle(&mut ks);
+                    for (i, k) in ks.iter().enumerate() {
+                        st.put_raw(k, union[*k].clone());
+                        if i % 2 == 0 || i + 1 == ks.len() {
+                            let _ = m.refresh();
+                        }
+                    }
+                    let got = obs_doc(&m);
+                    if &got != a {
+                        fails.push(("C01", format!("incremental delivery in a scrambled order differs from the synchronised replicas: {}", first_diff(a, &got))));
+                        fails.push(("C02", format!("incremental delivery in a scrambled order differs from a full load: {}", first_diff(a, &got))));
+                    }
+                }
+            }
+        }
+        for (p, w) in fails {
+            self.fail(p, w);
+        }
+    }
+}
+
+fn is_del(rev: &str) -> bool {
+    rev.split('-').nth(1).map(|s| s == "d" || s.starts_with("d_")).unwrap_or(false)
+}
+
+/// the leaf / winner rule of C05 evaluated on a tree dump, independently of the library
+pub fn independent_leafs(dump: &[(String, Option<String>, bool)]) -> (Vec<String>, Option<String>) {
+    let parent: HashMap<&String, &Option<String>> = dump.iter().map(|(r, p, _)| (r, p)).collect();
+    let is_parent: BTreeSet<&String> = dump.iter().filter_map(|(_, p, _)| p.as_ref()).collect();
+    let idx = |r: &str| -> u64 { r.split('-').next().unwrap().parse().unwrap_or(0) };
+    let digest = |r: &str| -> String { r.splitn(2, '-').nth(1).unwrap_or("").split('_').next().unwrap_or("").to_string() };
+    let mut leafs = vec![];
+    for (r, _, _) in dump {
+        if digest(r) == "r" || is_parent.contains(r) {
+            continue;
+        }
+        // ancestry must reach a creation revision
+        let mut cur = r;
+        let mut ok = false;
+        for _ in 0..dump.len() + 1 {
+            match parent.get(cur) {
+                None => break,
+                Some(None) => {
+                    ok = idx(cur) == 1;
+                    break;
+                }
+                Some(Some(p)) => cur = p,
+            }
+        }
+        if ok {
+            leafs.push(r.clone());
+        }
+    }
+    leafs.sort_by(|a, b| (idx(a), a.as_bytes()).cmp(&(idx(b), b.as_bytes())));
+    let w = leafs.last().cloned();
+    (leafs, w)
+}
+
+/// order of an array version, reconstructed from the stored objects with the harness' own patch code
+fn leaf_order(m: &Melda, uuid: &str, rev: &str, dump: &[(String, Option<String>, bool)]) -> Option<Vec<String>> {
+    let mut chain = vec![];
+    let mut cur = rev.to_string();
+    let base: Vec<Value>;
+    loop {
+        let o = catch_unwind(AssertUnwindSafe(|| m.get_value(uuid, Some(&cur)))).ok()?.ok()?;
+        if let Some(a) = o.get("A") {
+            base = a.as_array()?.clone();
+            break;
+        } else if let Some(p) = o.get("a") {
+            chain.push(p.as_array()?.clone());
+            cur = dump.iter().find(|(r, _, _)| *r == cur)?.1.clone()?;
+        } else if o.contains_key("_deleted") || o.contains_key("_resolved") {
+            base = vec![];
+            break;
+        } else {
+            return None;
+        }
+    }
+    let mut order = base;
+    for patch in chain.iter().rev() {
+        for op in patch {
+            let k = op[0].as_str()?;
+            if k == "d" {
+                let (len, idx) = (op[1].as_u64()? as usize, op[2].as_u64()? as usize);
+                if idx + len > order.len() {
+                    return None;
+                }
+                order.drain(idx..idx + len);
+            } else if k == "i" {
+                let idx = op[1].as_u64()? as usize;
+                if idx > order.len() {
+                    return None;
+                }
+                let items = op[2].as_array()?.clone();
+                order.splice(idx..idx, items);
+            } else {
+                return None;
+            }
+        }
+    }
+    Some(order.iter().filter_map(|v| v.as_str().map(|s| s.to_string())).collect())
+}
+
+/// identifiers of the elements shown for the array with descriptor `^owner@key`
+fn visible_array(doc: &Value, duuid: &str) -> Option<Vec<String>> {
+    let body = duuid.strip_prefix('^')?;
+    let at = body.rfind('@')?;
+    let (owner, key) = (&body[..at], &body[at + 1..]);
+    fn find<'a>(v: &'a Value, owner: &str) -> Option<&'a Map<String, Value>> {
+        match v {
+            Value::Object(o) => {
+                if o.get("_id").and_then(|i| i.as_str()) == Some(owner) {
+                    return Some(o);
+                }
+                for (k, c) in o {
+                    if k.ends_with(FLAT) {
+                        if let Some(x) = find(c, owner) {
+                            return Some(x);
+                        }
+                    }
+                }
+                None
+            }
+            Value::Array(a) => a.iter().find_map(|c| find(c, owner)),
+            _ => None,
+        }
+    }
+    let o = find(doc, owner)?;
+    let arr = o.get(key)?.as_array()?;
+    Some(arr.iter().filter_map(|e| e.get("_id").and_then(|i| i.as_str()).map(|s| s.to_string())).collect())
+}
+
+fn two<T>(v: &mut [T], i: usize, j: usize) -> (&mut T, &mut T) {
+    assert!(i != j);
+    if i < j {
+        let (a, b) = v.split_at_mut(j);
+        (&mut a[i], &mut b[0])
+    } else {
+        let (a, b) = v.split_at_mut(i);
+        (&mut b[0], &mut a[j])
+    }
+}
+
+/// (identifier, object without flattened children) of every tracked object of a document
+fn collect_objects(v: &Value, out: &mut Vec<(String, String)>) {
+    match v {
+        Value::Object(o) => {
+            if let Some(Value::String(id)) = o.get("_id") {
+                let mut m = Map::new();
+                for (k, c) in o {
+                    if !k.ends_with(FLAT) {
+                        m.insert(k.clone(), c.clone());
+                    } else if !c.is_array() && !c.is_object() {
+                        m.insert(k.clone(), c.clone());
+                    }
+                }
+                out.push((id.clone(), js(&Value::from(m))));
+            }
+            for (k, c) in o {
+                if k.ends_with(FLAT) {
+                    collect_objects(c, out);
+                }
+            }
+        }
+        Value::Array(a) => a.iter().for_each(|c| collect_objects(c, out)),
+        _ => {}
+    }
+}
+
+/// drop blocks that are not applied from an observation (a block without its pack is held back: invisible)
+fn strip_blocked(v: &Value) -> Value {
+    let mut v = v.clone();
+    if let Some(ds) = v.get_mut("deltas").and_then(|d| d.as_object_mut()) {
+        ds.retain(|_, d| d["s"] == "applied");
+    }
+    v
+}
+
+/// no applied block without its ancestors, packs and objects; reads succeed
+fn check_no_mixture(items: &Items) -> Option<String> {
+    let m = match fresh_on(items) {
+        Ok(m) => m,
+        Err(_) => return None,
+    };
+    let st = m.verif_delta_status();
+    for (id, s) in &st {
+        if *s == "applied" {
+            let d = m.get_delta(&DeltaId::from(id).unwrap()).unwrap().unwrap();
+            for p in d.parents.unwrap_or_default() {
+                if st.get(&p.to_string()) != Some(&"applied") {
+                    return Some(format!("block {} applied without its parent {}", id, p));
+                }
+            }
+            for k in d.packs.unwrap_or_default() {
+                if !items.contains_key(&format!("{}.pack", k)) {
+                    return Some(format!("block {} applied without its pack {}", id, k));
+                }
+            }
+        }
+    }
+    for u in m.get_all_objects() {
+        for (rev, _, _) in m.verif_tree_dump(&u).unwrap_or_default() {
+            match catch_unwind(AssertUnwindSafe(|| m.get_value(&u, Some(&rev)))) {
+                Ok(Ok(_)) => {}
+                _ => return Some(format!("revision {} of {} is recorded but its data is not readable", rev, u)),
+            }
+        }
+    }
+    let rd = read_res(&m);
+    if rd.get("panic").is_some() {
+        return Some(format!("read aborts: {}", js(&rd)));
+    }
+    None
+}
+
+pub fn first_diff(a: &Value, b: &Value) -> String {
+    fn go(path: String, a: &Value, b: &Value) -> Option<String> {
+        if a == b {
+            return None;
+        }
+        match (a, b) {
+            (Value::Object(x), Value::Object(y)) => {
+                let keys: BTreeSet<&String> = x.keys().chain(y.keys()).collect();
+                for k in keys {
+                    match (x.get(k), y.get(k)) {
+                        (Some(u), Some(v)) => {
+                            if let Some(d) = go(format!("{}/{}", path, k), u, v) {
+                                return Some(d);
+                            }
+                        }
+                        (Some(u), None) => return Some(format!("{}/{}: {} vs <absent>", path, k, trunc(&js(u)))),
+                        (None, Some(v)) => return Some(format!("{}/{}: <absent> vs {}", path, k, trunc(&js(v)))),
+                        _ => {}
+                    }
+                }
+                None
+            }
+            _ => Some(format!("{}: {} vs {}", path, trunc(&js(a)), trunc(&js(b)))),
+        }
+    }
+    go(String::new(), a, b).unwrap_or_default()
+}
+
+fn trunc(s: &str) -> String {
+    if s.chars().count() > 300 {
+        s.chars().take(300).collect::<String>() + "…"
+    } else {
+        s.to_string()
+    }
+}
+
+// ------------------------------------------------------------------ history generator
+
+pub fn gen_op(w: &World, g: &mut Rng, sim_faults: bool) -> Value {
+    let n = w.reps.len();
+    let r = g.below(n);
+    let rep = &w.reps[r];
+    let m = match &rep.m {
+        Some(m) => m,
+        None => return json!({"op": "reopen", "r": r}),
+    };
+    let staged = m.has_staging();
+    let conflicts = !m.in_conflict().is_empty();
+    let other = (r + 1 + g.below(n - 1)) % n;
+    let info = |g: &mut Rng| -> Value {
+        match g.below(4) {
+            0 => Value::Null,
+            1 => json!({"author": "é\"x\\", "n": 1.5, "nested": {"a": [1, {"b": null}]}}),
+            2 => json!({"t": *g.pick(&special_strings())}),
+            _ => json!({"seq": g.below(1000)}),
+        }
+    };
+    let c = g.below(100);
+    if conflicts && c < 12 {
+        return json!({"op": "resolve", "r": r, "pick": g.below(8), "k": g.below(4)});
+    }
+    match c {
+        0..=33 => {
+            let base = if g.chance(1, 5) {
+                match read_res(m).get("ok") {
+                    Some(v) => strip_root_id(v),
+                    None => rep.last_doc.clone(),
+                }
+            } else if g.chance(1, 12) {
+                random_doc(g)
+            } else {
+                rep.last_doc.clone()
+            };
+            let doc = if base.as_object().map(|o| o.is_empty()).unwrap_or(true) { random_doc(g) } else { mutate_doc(g, &base) };
+            json!({"op": "update", "r": r, "doc": doc})
+        }
+        34..=49 => json!({"op": "commit", "r": r, "info": info(g)}),
+        50..=59 => json!({"op": "meld", "r": r, "from": other}),
+        60..=66 => json!({"op": "refresh", "r": r}),
+        67..=68 => json!({"op": "reload", "r": r}),
+        69..=72 => json!({"op": "reopen", "r": r}),
+        73..=74 => json!({"op": "unstage", "r": r}),
+        75..=77 => {
+            if staged {
+                json!({"op": "stage_replay", "r": r})
+            } else {
+                json!({"op": "refresh", "r": r})
+            }
+        }
+        78..=80 => json!({"op": "snapshot", "r": r}),
+        81..=89 => json!({"op": "deliver", "r": r, "from": other, "pick": g.below(16)}),
+        90..=92 => json!({"op": "timetravel", "r": r, "pick": g.below(16)}),
+        93 => json!({"op": "delete_object", "r": r, "pick": g.below(8)}),
+        94..=96 => {
+            let _ = sim_faults;
+            if staged {
+                let fail = match g.below(4) {
+                    0 => vec![0],
+                    1 => vec![1],
+                    2 => vec![0, 1],
+                    _ => vec![0, 2],
+                };
+                json!({"op": "failcommit", "r": r, "fail": fail, "repeats": 1 + g.below(2), "info": info(g)})
+            } else {
+                json!({"op": "commit", "r": r, "info": info(g)})
+            }
+        }
+        97 => json!({"op": "faults", "r": r, "seed": g.next() % 100000}),
+        _ => json!({"op": "sync"}),
+    }
+}
+
+// ------------------------------------------------------------------ CLI
+
+fn arg<'a>(args: &'a [String], name: &str, default: &'a str) -> &'a str {
+    args.iter().position(|a| a == name).and_then(|i| args.get(i + 1)).map(|s| s.as_str()).unwrap_or(default)
+}
+
+/// mverif sim gen --seed S --count N --ops K --out DIR [--backend sim|fs|sqlite|..] [--light] [--perm P]
+/// mverif sim replay --trace FILE --out DIR [--backend ..]
+pub fn main(args: &[String]) {
+    let mode = args.first().map(|s| s.as_str()).unwrap_or("");
+    let out = arg(args, "--out", "/tmp/mverif_out").to_string();
+    std::fs::create_dir_all(&out).unwrap();
+    let backend = arg(args, "--backend", "sim").to_string();
+    let light = args.iter().any(|a| a == "--light");
+    let fails_path = format!("{}/fails.jsonl", out);
+    let _ = std::fs::remove_file(&fails_path);
+    *CURRENT.lock().unwrap() = Some((fails_path.clone(), String::new()));
+    start_watchdog(30_000);
+    let mut ff = std::fs::File::create(&fails_path).unwrap();
+    let mut summary = Map::new();
+    let mut stats_total: BTreeMap<String, usize> = BTreeMap::new();
+    match mode {
+        "gen" => {
+            let seed: u64 = arg(args, "--seed", "1").parse().unwrap();
+            let count: usize = arg(args, "--count", "10").parse().unwrap();
+            let ops: usize = arg(args, "--ops", "40").parse().unwrap();
+            let perm: u64 = arg(args, "--perm", "0").parse().unwrap();
+            let mut digests = vec![];
+            let mut samples = vec![];
+            let mut nontrivial = 0usize;
+            for h in 0..count {
+                let mut g = Rng::new(seed.wrapping_mul(1000003).wrapping_add(h as u64));
+                let nrep = 2 + g.below(2);
+                let dir = format!("{}/be{}", out, h);
+                if backend != "sim" {
+                    let _ = std::fs::remove_dir_all(&dir);
+                    std::fs::create_dir_all(&dir).unwrap();
+                }
+                let mut w = World::new(nrep, &backend, &dir, light);
+                if perm != 0 {
+                    for rp in &w.reps {
+                        if let Backend::Sim(s) = &rp.be {
+                            s.set_perm(perm);
+                        }
+                    }
+                }
+                for _ in 0..ops {
+                    let op = gen_op(&w, &mut g, backend == "sim");
+                    w.apply(&op);
+                    if !w.fails.is_empty() {
+                        break;
+                    }
+                }
+                if w.fails.is_empty() {
+                    w.apply(&json!({"op": "sync"}));
+                }
+                let final_obs: Vec<Value> = w.reps.iter().map(|r| r.m.as_ref().map(obs_noblocks).unwrap_or(Value::Null)).collect();
+                let dg = digest_string(&js(&Value::from(final_obs)));
+                digests.push(json!([h, dg]));
+                let conflict_seen = w.stats.contains_key("op:resolve");
+                if conflict_seen || w.stats.get("deliver_single_file").cloned().unwrap_or(0) > 0 {
+                    nontrivial += 1;
+                }
+                for (k, v) in &w.stats {
+                    *stats_total.entry(k.clone()).or_insert(0) += v;
+                }
+                if conflict_seen {
+                    *stats_total.entry("histories_with_conflict".into()).or_insert(0) += 1;
+                }
+                if w.reps.iter().any(|r| r.array_conflict_seen) {
+                    *stats_total.entry("histories_with_array_conflict_at_update".into()).or_insert(0) += 1;
+                }
+                if !w.fails.is_empty() {
+                    let tpath = format!("{}/fail_{}_{}.trace", out, seed, h);
+                    let mut tf = std::fs::File::create(&tpath).unwrap();
+                    writeln!(tf, "{}", json!({"replicas": nrep, "backend": backend})).unwrap();
+                    for op in &w.trace {
+                        writeln!(tf, "{}", op).unwrap();
+                    }
+                    for f in &w.fails {
+                        writeln!(ff, "{}", json!({"property": f.property, "what": f.what, "op_index": f.op_index, "history": h, "seed": seed, "trace": tpath})).unwrap();
+                    }
+                }
+                if h < 2 {
+                    samples.push(json!({"replicas": nrep, "ops": w.trace.iter().take(12).cloned().collect::<Vec<_>>()}));
+                }
+                if backend != "sim" {
+                    drop(w);
+                    let _ = std::fs::remove_dir_all(&dir);
+                }
+            }
+            summary.insert("histories".into(), json!(count));
+            summary.insert("nontrivial_histories".into(), json!(nontrivial));
+            summary.insert("digests".into(), Value::from(digests));
+            summary.insert("samples".into(), Value::from(samples));
+        }
+        "replay" => {
+            let text = std::fs::read_to_string(arg(args, "--trace", "")).unwrap();
+            let mut lines = text.lines().filter(|l| !l.trim().is_empty());
+            let head: Value = serde_json::from_str(lines.next().unwrap()).unwrap();
+            let nrep = head["replicas"].as_u64().unwrap() as usize;
+            let dir = format!("{}/be", out);
+            if backend != "sim" {
+                let _ = std::fs::remove_dir_all(&dir);
+                std::fs::create_dir_all(&dir).unwrap();
+            }
+            let mut w = World::new(nrep, &backend, &dir, light);
+            for l in lines {
+                let op: Value = serde_json::from_str(l).unwrap();
+                w.apply(&op);
+            }
+            for f in &w.fails {
+                writeln!(ff, "{}", json!({"property": f.property, "what": f.what, "op_index": f.op_index})).unwrap();
+            }
+            for (k, v) in &w.stats {
+                *stats_total.entry(k.clone()).or_insert(0) += v;
+            }
+            summary.insert("histories".into(), json!(1));
+        }
+        _ => {
+            eprintln!("usage: mverif sim gen|replay ...");
+            std::process::exit(2);
+        }
+    }
+    summary.insert("stats".into(), json!(stats_total));
+    std::fs::write(format!("{}/summary.json", out), js(&Value::from(summary))).unwrap();
+}
